@@ -108,6 +108,21 @@ func DecodeResponse(p Protocol, unary bool, reqContentType string, status int, h
 	r := &Response{Header: canon(header)}
 	h := r.Header
 	tr := canon(trailer)
+	// the HTTP message itself: one Content-Type, a Content-Length (if any) that is the body's,
+	// one value for each of the protocols' single-valued headers
+	if n := len(h.Values("Content-Type")); n > 1 {
+		r.problem("response has %d Content-Type values: %q", n, h.Values("Content-Type"))
+	}
+	if cl := h.Values("Content-Length"); len(cl) > 0 {
+		if n, err := strconv.Atoi(cl[0]); len(cl) > 1 || err != nil || n != len(body) {
+			r.problem("response Content-Length %q over a body of %d bytes", cl, len(body))
+		}
+	}
+	for _, k := range []string{"Grpc-Encoding", "Content-Encoding", "Connect-Content-Encoding", "Grpc-Accept-Encoding"} {
+		if n := len(h.Values(k)); n > 1 {
+			r.problem("response has %d %s values: %q", n, k, h.Values(k))
+		}
+	}
 	switch {
 	case p == Connect && unary:
 		decodeConnectUnary(r, reqContentType, status, h, body, dec)
